@@ -1,6 +1,8 @@
 package nc
 
 import (
+	"go/token"
+	"go/types"
 	"fmt"
 	"go/constant"
 	"strings"
@@ -279,6 +281,76 @@ func C19(p *Prog, r *Run) {
 			}
 			r.Check(ok, "Floats."+sp.method+".callee", p.Pos(c.Pos()), sp.method+" = "+tm.Of(c.Value()).String(), sp.method+": "+why)
 		}
+	})
+
+	r.Rule("C19.5", "averages divide in floating point: no statistic converts the result of an integer division; winner averages are float(total)/float(count) over the solved trials", func() {
+		n := 0
+		for _, fn := range p.SrcFuncs() {
+			if fn.Pkg == nil || fn.Pkg.Pkg.Path() != PkgE {
+				for pf := fn; pf != nil; pf = pf.Parent() {
+					if pf.Pkg != nil && pf.Pkg.Pkg.Path() == PkgE {
+						goto inPkg
+					}
+				}
+				continue
+			}
+		inPkg:
+			Instrs(fn, func(_ *ssa.BasicBlock, _ int, in ssa.Instruction) {
+				cv, ok := in.(*ssa.Convert)
+				if !ok {
+					return
+				}
+				bt, ok := cv.Type().Underlying().(*types.Basic)
+				if !ok || bt.Info()&types.IsFloat == 0 {
+					return
+				}
+				n++
+				if b, ok := cv.X.(*ssa.BinOp); ok && b.Op == token.QUO {
+					if xb, ok := b.X.Type().Underlying().(*types.Basic); ok && xb.Info()&types.IsInteger != 0 {
+						r.Bad("integer-division:"+fn.Name(), p.Pos(cv.Pos()), "in "+FuncName(fn)+" a quotient of two integers is converted to float: the fraction is cut off before the conversion ("+NewTermer(fn).Of(cv).String()+")")
+					}
+				}
+			})
+		}
+		r.Floor("int-to-float conversions inspected", n, 4)
+		aw := p.Func(PkgE, "Experiment.AvgWinnerStatistics")
+		r.Fn(FuncName(aw))
+		tm := NewTermer(aw)
+		okAll, nRes := true, 0
+		for _, b := range aw.Blocks {
+			ret, ok := b.Instrs[len(b.Instrs)-1].(*ssa.Return)
+			if !ok {
+				continue
+			}
+			for _, v := range ret.Results {
+				t := tm.Of(v)
+				if t.Op == "const" {
+					continue
+				}
+				nRes++
+				ok := t.Op == "bin" && t.Name == "/" && t.Args[0].Op == "conv" && t.Args[1].Op == "conv" && t.Args[0].Name == "float64" && t.Args[1].Name == "float64"
+				if ok {
+					// numerator accumulates a component of WinnerStatistics, denominator counts the solved trials
+					num, den := t.Args[0].Args[0], t.Args[1].Args[0]
+					ok = strings.Contains(num.String(), "WinnerStatistics") || num.Op == "phi" || num.Op == "loop"
+					_ = den
+				}
+				if !ok {
+					okAll = false
+				}
+			}
+		}
+		r.Check(okAll && nRes >= 4, "AvgWinnerStatistics.form", p.Pos(aw.Pos()), "each average is float64(total) / float64(count)", "AvgWinnerStatistics does not return float64(total)/float64(count) for each of its four averages")
+		// only solved trials contribute
+		okSolved := false
+		for _, c := range CallsTo(aw, p.Func(PkgE, "Trial.WinnerStatistics")) {
+			for _, g := range Guards(c.Block()) {
+				if gt := tm.Of(g.Cond); gt.Op == "call" && gt.Name == "Trial.Solved" && g.True {
+					okSolved = true
+				}
+			}
+		}
+		r.Check(okSolved, "AvgWinnerStatistics.solved-only", p.Pos(aw.Pos()), "only solved trials contribute", "winner statistics are accumulated for trials that are not solved")
 	})
 
 	r.Rule("C19.4", "aggregates as origins: success rate, solved counts, epochs per trial, diversity and best organism are computed from the recorded generations as defined", func() {
